@@ -350,7 +350,7 @@ def local_midnight_index(dates, zone):
     idx = pd.DatetimeIndex([pd.Timestamp(d.year, d.month, d.day) for d in dates]).tz_localize(zone)
     z = zoneinfo.ZoneInfo(zone)
     want = [int(datetime.datetime(d.year, d.month, d.day, tzinfo=z).timestamp()) for d in dates]
-    got = [int(v) // 10 ** 9 for v in idx.asi8]
+    got = [int(v) // 10 ** 9 for v in idx.as_unit("ns").asi8]
     if want != got:
         raise RuntimeError("harness: pandas and zoneinfo disagree on local midnight in %s" % zone)
     return idx
@@ -360,7 +360,7 @@ def observe_routing(model, data, zone):
     """per LOCAL date (zoneinfo): (model_split, predicted, model_type) of the rows the prediction returned for it"""
     out = model.predict(data)
     per = {}
-    for ns, ms, pred, mt in zip(out.index.asi8, out["model_split"].values, out["predicted"].values, out["model_type"].values):
+    for ns, ms, pred, mt in zip(out.index.as_unit("ns").asi8, out["model_split"].values, out["predicted"].values, out["model_type"].values):
         d = local_date(ns, zone)
         ms = None if (ms is None or ms != ms) else str(ms)
         pred = None if pred != pred else float(pred)
@@ -450,9 +450,10 @@ def stream_route(run, info, DailyModel, DailyReportingData, only=None):
             case = {"split": text, "maps": mname, "season": season, "week": week, "tz": tz, "data_class": cls}
             intercepts = {c: 100.0 + i for i, c in enumerate(keys)}
             run.dist("route: time zone / data class", "%s / %s" % (tz, cls))
+            data = data_for(tz, cls)                 # a failure here is the harness's (or the data class's): not a routing observation
             try:
                 model = DailyModel.from_dict(synthetic_doc(keys, settings, tz))
-                per, nrows = observe_routing(model, data_for(tz, cls), tz)
+                per, nrows = observe_routing(model, data, tz)
             except Exception as e:  # noqa
                 run.violation({"call": "DailyModel.predict", "broken": "raised", "raised": type(e).__name__},
                               "C13 predict raised %s: %s on split %s" % (type(e).__name__, e, text), case=case,
@@ -600,10 +601,17 @@ def stream_best_stub(run, info, DailyModel, only=None):
 
 # ------------------------------------------------------------------ stream D: real fits
 
+FIT_ZONES = ["US/Pacific", "Europe/Berlin", "Asia/Tokyo", "Australia/Sydney", "America/New_York", "Asia/Kolkata"]
+
+
+def fit_zone(seed):
+    return FIT_ZONES[(seed // 3) % len(FIT_ZONES)]       # (seed % 3 chooses the start date)
+
+
 def fit_dataset(seed, kind):
     rng = np.random.default_rng(seed)
     start = ["2021-11-01", "2022-03-01", "2022-06-15"][seed % 3]
-    idx = pd.date_range(start, periods=365, freq="D", tz="US/Pacific")
+    idx = pd.date_range(start, periods=365, freq="D", tz=fit_zone(seed))
     doy = idx.dayofyear.values
     T = 60 + 22 * np.sin(2 * np.pi * (doy - 110) / 365) + rng.normal(0, 4, len(idx))
     y = 20.0 + 1.2 * np.clip(55 - T, 0, None) + 1.6 * np.clip(T - 68, 0, None)
@@ -672,7 +680,9 @@ def fit_worker(job):
     res["c0"], res["d0"] = float(ss.penalty_multiplier), float(ss.penalty_power)
     res["components"] = {c: [float(fc.N), float(fc.TSS), float(fc.wSSE)] for c, fc in m.fit_components.items()}
     dm = m.df_meter
-    res["dates"] = [[ts.year, ts.month, ts.day] for ts in dm.index]
+    zone = fit_zone(seed)
+    res["tz"] = zone
+    res["dates"] = [[d.year, d.month, d.day] for d in (local_date(ns, zone) for ns in dm.index.as_unit("ns").asi8)]      # local days, by zoneinfo
     res["season_map"] = [m.settings.season._num_dict[i] for i in range(1, 13)]
     res["week_map"] = [m.settings.weekday_weekend._num_dict[i] for i in range(1, 8)]
     res["flags"] = [ss.allow_separate_summer, ss.allow_separate_shoulder, ss.allow_separate_winter,
@@ -687,9 +697,10 @@ def fit_worker(job):
         out = m.predict(bd, ignore_disqualification=True)
         rows = []
         obs = out["observed"].values if "observed" in out.columns else np.zeros(len(out))
-        for ts, ms, pred, T, y in zip(out.index, out["model_split"].values, out["predicted"].values, out["temperature"].values, obs):
+        for ns, ms, pred, T, y in zip(out.index.as_unit("ns").asi8, out["model_split"].values, out["predicted"].values, out["temperature"].values, obs):
             complete = bool(np.isfinite(T)) and bool(np.isfinite(y))     # otherwise the row is passed through unpredicted (C07's subject)
-            rows.append([[ts.year, ts.month, ts.day], None if (ms is None or ms != ms) else str(ms),
+            ld = local_date(ns, zone)
+            rows.append([[ld.year, ld.month, ld.day], None if (ms is None or ms != ms) else str(ms),
                          None if pred != pred else float(pred), complete])
         res["rows"] = rows
         # each sub-model evaluated on its own on the whole temperature series, to attribute predictions
@@ -852,6 +863,7 @@ def stream_fits(run, info, only=None, handle=None):
                 res.get("crit_type"), sorted(res.get("components", {}))[:3]), "model": "not representable in Model/SelCrit.v"})
         best_terms.append(("(%s, %s)" % (coq_list(["(%s, %s)" % (coq_string(a), xr(b)) for a, b in table]),
                                         coq_opt(chosen, coq_string)), case))
+        run.dist("fit: time zone", res.get("tz"))
         run.dist("fit: candidates", len(combos))
         run.dist("fit: selected", chosen)
         run.sample({"stream": "fit", "dataset": case["dataset"], "n_candidates": len(combos), "selected": chosen,
@@ -949,6 +961,13 @@ def stream_calendar(run):
         if d.day == 1 or not runs:
             runs.append([i, 0, d.year, d.month, d.isoweekday()])
         runs[-1][1] += 1
+    # the same two expressions on an index east of Greenwich (local midnight is the previous day in UTC)
+    idx2 = pd.date_range("1970-01-01", "2100-12-31", freq="D", tz="Pacific/Auckland")
+    m2, w2 = idx2.month.values, (idx2.dayofweek + 1).values
+    for i in range(0, len(idx2)):
+        if int(m2[i]) != int(month[i]) or int(w2[i]) != int(dow[i]):
+            bad = bad or (i, "Pacific/Auckland", (int(m2[i]), int(w2[i])))
+            break
     run.count(("calendar", len(idx)), nontrivial=True)
     run.dist("calendar: days compared (pandas vs CPython vs model)", len(idx))
     if bad is not None:
@@ -1015,7 +1034,8 @@ def main():
         "generated: every regenerated candidate text; trim: _combinations() on 8 season/weekday maps x 11 fixed + random date sets "
         "(incl. the 29/30-day and 7/8-weekend-day boundaries) x the 16 allow-flag combinations, plus Gaussian-reduction cases with "
         "the ellipsoid outcome as oracle input; route: predict()['model_split'] of DailyModel.from_dict documents for every "
-        "generated split x 8 maps over all 731 dates of 2023-2024 (+ two non-partition documents); best: the real "
+        "generated split x 8 maps over all 731 local dates of 2023-2024 in 8 time zones (UTC-5 .. UTC+13) through DailyReportingData "
+        "and DailyBaselineData (+ two non-partition documents); best: the real "
         "_best_combination on synthetic criteria tables (random / ties / NaN / +-inf); fit: real fits on synthetic meters "
         "(+ three with season/weekday names outside the hard-wired ones, end to end; + non-default criteria); calendar: every day "
         "1970-2100; criterion: the real selection_criteria() for all ten criteria on random and edge inputs (N from 1, "
@@ -1040,7 +1060,9 @@ def main():
         "values as extended rationals) and, composed, for the coded criterion over the reals",
         "routing depends on a date only through (month, ISO weekday) of its local civil date: the route stream observes "
         "that all dates of one (month, weekday) cell are routed alike over 2023-2024; the calendar stream compares pandas' "
-        "index.month / dayofweek+1 with CPython and with Model/SplitsCal.v for every day 1970-2100 (one time zone); the "
+        "index.month / dayofweek+1 with CPython and with Model/SplitsCal.v for every day 1970-2100 (America/New_York and "
+        "Pacific/Auckland); the expected cell of a predicted row is that of its LOCAL date computed with zoneinfo from the row's UTC "
+        "instant, in 8 zones with negative, zero and positive offsets at local midnight, through both data classes; the "
         "date-level theorem then holds for every integer day number",
         "correspondence is sampled except where stated exhaustive (all generated splits, all 16 flag combinations)",
     ]
